@@ -92,6 +92,8 @@ var SiteNames = []string{
 	"time.read", "json.map", "json.array", "json.kv",
 	"desc.scalars", "desc.slice", "desc.struct", "desc.json", "desc.jsonkv",
 	"skip.slice",
+	"struct.size", "struct.descriptor", "map.size", "map.append", "slice.size", "slice.encode", "json.size", "json.encode",
+	"map.iter1", "map.iterN", "map.iterEnd",
 	"simreg.load", "simreg.storeOrSwap",
 	"op.begin", "op.end",
 }
@@ -103,6 +105,8 @@ const (
 
 var NumSites = len(SiteNames)
 
+var siteIter1, siteIterN, siteIterEnd, siteOpBegin int
+
 var siteIndex = func() map[string]int {
 	m := make(map[string]int, len(SiteNames))
 	for i, n := range SiteNames {
@@ -111,6 +115,7 @@ var siteIndex = func() map[string]int {
 	if m["mutex.wait"] != SiteMutexWait {
 		panic("site table out of step")
 	}
+	siteIter1, siteIterN, siteIterEnd, siteOpBegin = m["map.iter1"], m["map.iterN"], m["map.iterEnd"], m["op.begin"]
 	return m
 }()
 
@@ -265,6 +270,8 @@ type Sim struct {
 	blocked   [MaxTasks]bool
 	blockedAt [MaxTasks]int
 	yields    [MaxTasks]int
+	iterDepth [MaxTasks]int // nesting of encode-side map iterations the task is inside
+	iterSupp  [MaxTasks]int // depth at which an iteration over more than one entry began (0 = none)
 	started   [MaxTasks]bool
 	cur       int
 	stepCount int
@@ -577,6 +584,31 @@ func yieldHook(site string) {
 		return
 	}
 	id := siteIndex[site]
+	// Iterations over a Go map on the encode side happen in an order nobody
+	// controls. One over more than one entry is a single step of the schedule:
+	// the yield points inside it are ignored, so that a schedule never depends
+	// on that order. (Iterations over zero or one entry are ordinary code.)
+	switch id {
+	case siteIterN, siteIter1:
+		s.iterDepth[t]++
+		if id == siteIterN && s.iterSupp[t] == 0 {
+			s.iterSupp[t] = s.iterDepth[t]
+		}
+		return
+	case siteIterEnd:
+		if s.iterDepth[t] > 0 {
+			if s.iterSupp[t] == s.iterDepth[t] {
+				s.iterSupp[t] = 0
+			}
+			s.iterDepth[t]--
+		}
+		return
+	case siteOpBegin:
+		s.iterDepth[t], s.iterSupp[t] = 0, 0
+	}
+	if s.iterSupp[t] != 0 && id != SiteMutexWait {
+		return
+	}
 	if !s.sites[id] {
 		return
 	}
